@@ -157,7 +157,7 @@ def gen_plan(rng, tier='quick', config='B', traces=None):
         kind = rng.choice(moves)
         R = _move(rng, n, cur[s], kind)
         cur[s] = R
-        q = {'s': s, 'op': 'Q', 'R': list(R), 'rt': rng.choice(['nd', 'nd', 'list', 'slist', 'nd32', 'nd16', 'ro', 'tuple'])}
+        q = {'s': s, 'op': 'Q', 'R': list(R), 'rt': rng.choice(['nd', 'nd', 'list', 'slist', 'nd32', 'nd16', 'nd8', 'ro', 'tuple'])}
         steps.append(q)
         last_q[s] = q
         prev_kind = kind if kind in ('refine', 'coarsen') else 'Q'
@@ -202,6 +202,10 @@ def _call(ev, metrics, sess, R, rt, cache_kind):
         Rarg = np.array(R, dtype=np.int32)
     elif rt == 'nd16':
         Rarg = np.array(R, dtype=np.int16 if len(sess.points) < 30000 else np.int32)
+    elif rt == 'nd8':
+        # the narrowest dtype that holds the indices (np.int8 up to 120 points): arithmetic that stays in the
+        # index dtype wraps at small sizes, which is where a dtype-preserving accumulator shows
+        Rarg = np.array(R, dtype=np.int8 if len(sess.points) <= 120 else np.int16 if len(sess.points) < 30000 else np.int32)
     elif rt == 'ro':
         Rarg = np.array(R, dtype=np.int64)
         Rarg.flags.writeable = False       # e.g. indices that live in a memory-mapped or shared read-only array
@@ -327,7 +331,7 @@ def execute(plan, stats=None, check=True, want_events=True):
                     bump('probe.list_typed_R')
                 if rt == 'slist':
                     bump('probe.same_list_object_edited_in_place')
-                if rt in ('nd32', 'nd16'):
+                if rt in ('nd32', 'nd16', 'nd8'):
                     bump('probe.narrow_int_R')
                 if r_sess[0] == 'exc':
                     if s.tainted:
